@@ -331,3 +331,21 @@ Theorem C08_activation_or_chain_variant_refuted :
   ev_value Examples.xe Examples.xeval [("flow_id", VStr "watch")] 0 (mkParam "level" (Some (Examples.XLit (VInt 1)))) = VInt 1.
 Proof. exact Examples.or_chain_variant_refuted. Qed.
 Print Assumptions C08_activation_or_chain_variant_refuted.
+
+(* ---- restart of an activated flow (FlowState.start_event in _finish_flow/_abort_flow) ---- *)
+
+(* The successor instance is started from the predecessor's `arguments`; it therefore binds
+   every parameter to exactly the value the ORIGINAL call bound (positional, else named, else
+   default) - whatever the predecessor assigned to its parameter variables and locals, which
+   live in its context only (C08_locals_private: no Assign changes `arguments`). *)
+Theorem C08_restart_binds_original_call :
+  forall (expr : Type) (eval : ctx -> expr -> value) (ps rs : list (param expr)) (ev : ctx) (k : nat)
+         (a c : ctx) (R : reserved) (activated : value),
+    wf_signature expr ps rs = true -> pos_contig ev k -> k <= List.length ps ->
+    bind expr eval ps rs ev = Bound a c ->
+    exists a' c', bind expr eval ps rs (restart_event_args R activated a) = Bound a' c' /\
+      forall i p, nth_error ps i = Some p ->
+        aget (p_name p) c' = Some (ev_value expr eval ev i p) /\
+        aget (p_name p) a' = Some (ev_value expr eval ev i p).
+Proof. exact restart_rebinds_original_values. Qed.
+Print Assumptions C08_restart_binds_original_call.
